@@ -447,9 +447,16 @@ def rand_uint(rng):
     return rng.getrandbits(rng.randint(0, 64))
 
 
+SINT_EDGES = [v for k in (7, 15, 31, 63) for v in ((1 << k) - 1, 1 << k, (1 << k) + 1, -(1 << k) - 1, -(1 << k), -(1 << k) + 1) if -(1 << 63) <= v < (1 << 63)] + \
+             [(1 << 32) - 1, 1 << 32, (1 << 31) + 12345, (1 << 32) - 54321, 0xDEADBEEF, (1 << 16) - 1, 1 << 16, (1 << 8) - 1, 1 << 8, -(1 << 32), -(1 << 32) + 1]
+
+
 def rand_sint(rng):
     r = rng.random()
-    if r < 0.4:
+    if r < 0.25:
+        # the edges of the widths 1/2/4/8 of the signed encoder, and the values an UNSIGNED width ladder would place differently
+        return rng.choice(SINT_EDGES)
+    if r < 0.5:
         return rng.randrange(-300, 300)
     k = rng.choice([7, 8, 15, 16, 31, 32, 63])
     v = rng.choice([-1, 1]) * ((1 << k) + rng.choice([-2, -1, 0, 1, 2]))
